@@ -216,6 +216,16 @@ func (w *world) buildPlan(ck ctxKey, prev *plan) *plan {
 	}
 	for ki, kind := range kinds {
 		mode := subsetMode(c.Weighted("subset-"+kindName(kind), modes))
+		if w.stall == 0 && !w.stallDrawn {
+			w.stallDrawn = true
+			if c.Chance("stalled-rounds", 1, 5) {
+				w.stall = 4 + c.Intn("stall-indexes", 3)
+				w.r.Probe("stalled-rounds-run")
+			}
+		}
+		if w.stall > 0 && int(ck.index) <= w.stall && !afterFault {
+			mode = modeBelow
+		}
 		if afterFault {
 			mode = modeAll // after a restart/resume the network votes the (different) block to a quorum
 		}
@@ -255,6 +265,9 @@ func (w *world) buildPlan(ck ctxKey, prev *plan) *plan {
 		}
 	}
 	p.closing = c.Weighted("closing", []int{3, 2, 2})
+	if w.stall > 0 && int(ck.index) <= w.stall && !afterFault {
+		p.closing = 1 // the index ends with next-index votes: the round goes on at the next index
+	}
 	return p
 }
 
